@@ -2,6 +2,7 @@ package synct
 
 import (
 	"fmt"
+	"os"
 	"runtime"
 	"sort"
 	"strconv"
@@ -28,6 +29,16 @@ import (
 //	                   (read off the goroutine dump: no timing guess); then finish() is released.
 //	                   If nothing is orphaned there is no such window: the items run after finish().
 //	                   result: orph=<ids>/<res>,<res>…  (res per item: ok|err|got_<id>|none)
+//	b<k> put <t|u|h> <id> | b<k> get | b<k> finish
+//	                   the same on a SECOND (third, …) control buffer k>=1 of the same process (all
+//	                   controlBuffers share the package-level node pool); created on first use
+//	finishcb <it> …    finish() of the primary buffer; from INSIDE its onOrphaned callbacks (same goroutine,
+//	                   two items per callback, the rest after finish returned) the items
+//	                   b<k>:p<t|u|h><id> / b<k>:g are applied to the other buffers - what a producer of
+//	                   another connection does while this connection is being torn down.
+//	                   result: orph=<ids>/<res>,<res>…
+//	Every answer gets a trailing " foreign=<ids>" when a clientHeaders was failed by a finish() of a
+//	buffer it was not queued in.
 //
 // Output: <result> blocked=<readers still inside throttle(), sorted> cons=<-|parked|got <id>|err|doneerr>
 // result: ok|err (put)  got <id>|none|err (get)  orph=<ids> (finish)  - (others)
@@ -40,6 +51,15 @@ type controlbufH struct {
 	consRes string // its result, once it returned
 	wg      sync.WaitGroup
 	dead    bool
+
+	limit     int
+	others    map[int]*transport.VerifControlBuf
+	inFinish  map[int]bool // buffers whose Finish() is executing
+	foreign   []int        // clientHeaders failed by somebody else's finish()
+	cbHook    func()       // finishcb: work to do inside the primary's onOrphaned callbacks
+	puts      int          // items ever offered to any buffer
+	orphCalls int
+	livelock  bool
 }
 
 func init() {
@@ -71,7 +91,113 @@ func (h *controlbufH) status(res string) string {
 			cons = "parked"
 		}
 	}
-	return fmt.Sprintf("%s blocked=%s cons=%s", res, joinOrDash(bs), strings.ReplaceAll(cons, " ", "_"))
+	out := fmt.Sprintf("%s blocked=%s cons=%s", res, joinOrDash(bs), strings.ReplaceAll(cons, " ", "_"))
+	if len(h.foreign) > 0 {
+		fs := make([]string, len(h.foreign))
+		for i, id := range h.foreign {
+			fs[i] = strconv.Itoa(id)
+		}
+		out += " foreign=" + strings.Join(fs, ",")
+		h.foreign = nil
+	}
+	return out
+}
+
+// newBuf makes buffer k (0 = primary) with the orphan hook that detects foreign failures.
+func (h *controlbufH) newBuf(k int) *transport.VerifControlBuf {
+	v := transport.VerifNewControlBuf(h.limit)
+	v.OnOrphan = func(id int) {
+		h.mu.Lock()
+		h.orphCalls++
+		if h.orphCalls > 4*h.puts+64 {
+			// more failures than items ever queued: finish() is walking a corrupted (cyclic) list
+			h.mu.Unlock()
+			panic("orphan storm: onOrphaned called more often than items were ever queued")
+		}
+		own := h.inFinish[k]
+		if !own {
+			h.foreign = append(h.foreign, id)
+		}
+		hook := h.cbHook
+		h.mu.Unlock()
+		if k == 0 && own && hook != nil {
+			hook()
+		}
+	}
+	return v
+}
+
+func (h *controlbufH) other(k int) *transport.VerifControlBuf {
+	if h.others == nil {
+		h.others = map[int]*transport.VerifControlBuf{}
+	}
+	if h.others[k] == nil {
+		h.others[k] = h.newBuf(k)
+	}
+	return h.others[k]
+}
+
+// finishOf runs Finish() of buffer k, marking it as the one that may legitimately orphan its own items.
+// finish() runs in its own goroutine under a watchdog: a finish() that never returns (it walks a
+// corrupted, cyclic list) spins without ever blocking, which neither synctest nor a virtual-time
+// timeout can see - the watchdog counts scheduler yields instead, reports the livelock as a PANIC of
+// this op and makes Close() end the process (the spinning goroutine cannot be stopped).
+func (h *controlbufH) finishOf(k int, v *transport.VerifControlBuf) []int {
+	done := make(chan []int, 1)
+	go func() { done <- h.finishRaw(k, v) }()
+	for spin := 0; ; spin++ {
+		select {
+		case ids := <-done:
+			return ids
+		default:
+		}
+		if spin > 5_000_000 {
+			h.livelock = true
+			panic("finish() does not return (livelock)")
+		}
+		runtime.Gosched()
+	}
+}
+
+func (h *controlbufH) finishRaw(k int, v *transport.VerifControlBuf) []int {
+	h.mu.Lock()
+	if h.inFinish == nil {
+		h.inFinish = map[int]bool{}
+	}
+	h.inFinish[k] = true
+	h.mu.Unlock()
+	defer func() { h.mu.Lock(); h.inFinish[k] = false; h.mu.Unlock() }()
+	return v.Finish()
+}
+
+func idsStr(ids []int) string {
+	s := make([]string, len(ids))
+	for i, id := range ids {
+		s[i] = strconv.Itoa(id)
+	}
+	return joinOrDash(s)
+}
+
+// itemOn applies one item (p<kind><id> | g) to buffer v.
+func (h *controlbufH) itemOn(v *transport.VerifControlBuf, it string) string {
+	h.mu.Lock()
+	h.puts++
+	h.mu.Unlock()
+	return itemOn0(v, it)
+}
+
+func itemOn0(v *transport.VerifControlBuf, it string) string {
+	if it == "g" {
+		id, st := v.Get(false)
+		if st == "got" {
+			return "got_" + strconv.Itoa(id)
+		}
+		return st
+	}
+	if err := v.Put(it[1], atoiS(it[2:])); err != nil {
+		return "err"
+	}
+	return "ok"
 }
 
 // Op: a panic inside the controlBuffer (recovered by the harness as PANIC) leaves c.mu locked, so the
@@ -89,16 +215,63 @@ func (h *controlbufH) Op(f []string) (out string) {
 	return h.op(f)
 }
 
+// bufOp: b<k> put <kind> <id> | b<k> get | b<k> finish
+func (h *controlbufH) bufOp(k int, f []string) string {
+	v := h.other(k)
+	switch f[0] {
+	case "put":
+		return h.itemOn(v, "p"+f[1]+f[2])
+	case "get":
+		return h.itemOn(v, "g")
+	case "finish":
+		return "orph=" + idsStr(h.finishOf(k, v))
+	}
+	return "bad-op"
+}
+
+// finishCb: finish() of the primary buffer with work on OTHER buffers done from inside its
+// onOrphaned callbacks (two items per callback), the rest after finish returned.
+func (h *controlbufH) finishCb(items []string) string {
+	res := make([]string, len(items))
+	next := 0
+	run := func(n int) {
+		for ; n > 0 && next < len(items); n-- {
+			i := next
+			next++
+			b, it, _ := strings.Cut(items[i], ":")
+			res[i] = h.itemOn(h.other(atoiS(b[1:])), it)
+		}
+	}
+	h.mu.Lock()
+	h.cbHook = func() { run(2) }
+	h.mu.Unlock()
+	ids := h.finishOf(0, h.v)
+	h.mu.Lock()
+	h.cbHook = nil
+	h.mu.Unlock()
+	run(len(items))
+	return "orph=" + idsStr(ids) + "/" + joinOrDash(res)
+}
+
 func (h *controlbufH) op(f []string) string {
 	if f[0] == "limit" {
-		h.v = transport.VerifNewControlBuf(atoiS(f[1]))
+		h.limit = atoiS(f[1])
+		h.v = h.newBuf(0)
+		h.others = nil
 		return h.status("-")
 	}
 	if h.v == nil {
-		h.v = transport.VerifNewControlBuf(2) // no `limit` op (e.g. a shrunk case): default limit 2
+		h.limit = 2 // no `limit` op (e.g. a shrunk case): default limit 2
+		h.v = h.newBuf(0)
+	}
+	if len(f[0]) >= 2 && f[0][0] == 'b' && f[0][1] >= '0' && f[0][1] <= '9' && len(f) >= 2 {
+		return h.status(h.bufOp(atoiS(f[0][1:]), f[1:]))
 	}
 	switch f[0] {
 	case "put":
+		h.mu.Lock()
+		h.puts++
+		h.mu.Unlock()
 		if err := h.v.Put(f[1][0], atoiS(f[2])); err != nil {
 			return h.status("err")
 		}
@@ -144,7 +317,7 @@ func (h *controlbufH) op(f []string) string {
 		}()
 		return h.status("-")
 	case "finish":
-		ids := h.v.Finish()
+		ids := h.finishOf(0, h.v)
 		s := make([]string, len(ids))
 		for i, id := range ids {
 			s[i] = strconv.Itoa(id)
@@ -152,6 +325,8 @@ func (h *controlbufH) op(f []string) string {
 		return h.status("orph=" + joinOrDash(s))
 	case "finishrace":
 		return h.status(h.finishRace(f[1:]))
+	case "finishcb":
+		return h.status(h.finishCb(f[1:]))
 	case "done":
 		h.v.CloseDone()
 		return h.status("-")
@@ -161,17 +336,7 @@ func (h *controlbufH) op(f []string) string {
 
 // raceItem runs one racing op and returns its result token.
 func (h *controlbufH) raceItem(it string) string {
-	if it == "g" {
-		id, st := h.v.Get(false)
-		if st == "got" {
-			return "got_" + strconv.Itoa(id)
-		}
-		return st
-	}
-	if err := h.v.Put(it[1], atoiS(it[2:])); err != nil {
-		return "err"
-	}
-	return "ok"
+	return h.itemOn(h.v, it)
 }
 
 // goid returns the current goroutine's id (from its stack header).
@@ -207,15 +372,18 @@ func (h *controlbufH) finishRace(items []string) string {
 	inOrphan := make(chan struct{})
 	resume := make(chan struct{})
 	var once sync.Once
-	h.v.OnOrphan = func(int) { once.Do(func() { close(inOrphan); <-resume }) }
+	h.mu.Lock()
+	h.cbHook = func() { once.Do(func() { close(inOrphan); <-resume }) }
+	h.mu.Unlock()
+	clearHook := func() { h.mu.Lock(); h.cbHook = nil; h.mu.Unlock() }
 	finDone := make(chan []int, 1)
-	go func() { finDone <- h.v.Finish() }()
+	go func() { finDone <- h.finishRaw(0, h.v) }()
 	res := make([]string, len(items))
 	var ids []int
 	select {
 	case ids = <-finDone:
 		// nothing was orphaned: no window; the items simply come after finish()
-		h.v.OnOrphan = nil
+		clearHook()
 		for i, it := range items {
 			res[i] = h.raceItem(it)
 		}
@@ -234,12 +402,14 @@ func (h *controlbufH) finishRace(items []string) string {
 		}
 		// wait until every racing goroutine has returned or is parked on the buffer's mutex
 		for i := range items {
-			for spin := 0; spin < 200000; spin++ {
+			for spin := 0; spin < 50000; spin++ {
 				if dones[i].Load() {
 					break
 				}
-				if g, _ := gids[i].Load().(string); g != "" && parkedOnMutex(g) {
-					break
+				if spin%8 == 7 {
+					if g, _ := gids[i].Load().(string); g != "" && parkedOnMutex(g) {
+						break
+					}
 				}
 				runtime.Gosched()
 			}
@@ -247,7 +417,7 @@ func (h *controlbufH) finishRace(items []string) string {
 		close(resume)
 		ids = <-finDone
 		wg.Wait()
-		h.v.OnOrphan = nil
+		clearHook()
 	}
 	s := make([]string, len(ids))
 	for i, id := range ids {
@@ -257,6 +427,9 @@ func (h *controlbufH) finishRace(items []string) string {
 }
 
 func (h *controlbufH) Close() {
+	if h.livelock {
+		os.Exit(3) // a finish() goroutine is spinning for ever; every line of this case has been printed
+	}
 	if h.dead {
 		// c.mu is held by the panicked call: anything that touches the buffer would hang for real
 		// (a goroutine blocked on a sync.Mutex is not "durably blocked" for synctest). Leave the
@@ -264,9 +437,19 @@ func (h *controlbufH) Close() {
 		// which the check attributes to this case as a CRASH.
 		return
 	}
+	// tear-down goes through the same watchdog: a finish() that livelocks here ends the process
+	defer func() {
+		if r := recover(); r != nil {
+			os.Exit(3)
+		}
+	}()
 	if h.v != nil {
-		h.v.Finish()
+		h.finishOf(0, h.v)
 		h.v.CloseDone()
+	}
+	for k, v := range h.others {
+		h.finishOf(k, v)
+		v.CloseDone()
 	}
 	h.wg.Wait()
 }
